@@ -19,7 +19,7 @@ ENGINE = 'E1 word enumerator'
 TECHNIQUE = 'bounded-exhaustive differential enumeration: compiled vs pure-Python quoter/unquoter on every token word and every 8 KiB boundary offset'
 LEVEL_TEXT = 'All token words up to length 3-5 (alphabet: all ASCII, UTF-8 length classes, surrogates, every escape shape) for each of the 9 quoter and 4 unquoter configurations discovered in the working tree, plus padded words walking the output position across every offset around 8192*m, are executed on both implementations and must agree exactly.'
 LEVEL_NOTE = 'Word length bound; compositional expectation for padded words in the quick tier (the thorough tier runs the Python quoter on the long strings too).'
-BACKENDS = ("c",)  # both quoting modules are imported side by side in one process
+BACKENDS = ("c", "py")  # quoter-level tasks import both modules side by side (run in the "c" pool); URL-level digests per backend
 RULE = ("cases = (configuration, token word); every word of length<=k over the stated token alphabets is enumerated once per "
         "configuration (duplicates as strings arising from different tokenisations are skipped within a shard); plus boundary "
         "words pad^n+w with the output position at every offset -13..+1 around 8192*m, m=1..3; plus argument kinds. "
@@ -125,7 +125,50 @@ def case_argkind(acc, kind, name, argname):
                  msg="%s %s(%r): compiled %r != python %r" % (kind, name, x, a, b))
 
 
-CASES = {"call": case_call, "boundary": case_boundary, "argkind": case_argkind}
+def url_observation(rname, w):
+    """What a user can see of one routed call: the string form and the raw components (or the exception class)."""
+    from vlib import routes
+    try:
+        u = routes.ROUTES[rname].fn(w)
+        return (str(u), u.raw_user, u.raw_password, u.raw_host, u.explicit_port, u.raw_path, u.raw_query_string, u.raw_fragment,
+                u.path, u.query_string, u.fragment)
+    except Exception as e:  # noqa: BLE001
+        return ("exc", exc_class(type(e).__name__))
+
+
+def case_url(acc, rname, w, other_backend_observation):
+    """Replay of a URL-level difference: this backend's observation against the one recorded for the other backend."""
+    acc.evals += 1
+    acc.nontrivial += 1
+    mine = url_observation(rname, w)
+    if list(mine) != list(other_backend_observation):
+        acc.viol("url", (rname, w, other_backend_observation), observed={impl.backend: mine}, expected={"other backend": other_backend_observation},
+                 msg="%s(%r): %s backend gives %r, the other backend %r" % (rname, w, impl.backend, mine, other_backend_observation))
+
+
+CASES = {"call": case_call, "boundary": case_boundary, "argkind": case_argkind, "url": case_url}
+
+
+def task_url_digest(rname, spname, part, nparts, detail):
+    from vlib import sweep
+    acc = Acc(ID, impl.backend)
+    h = hashlib.sha256()
+    rows = []
+    n = 0
+    for w in sweep.space(spname)[part::nparts]:
+        o = url_observation(rname, w)
+        n += 1
+        if detail:
+            rows.append((w, o))
+        else:
+            h.update(repr(o).encode("utf8", "surrogatepass"))
+    acc.evals = n
+    acc.nontrivial = n
+    res = acc.result()
+    res["digests"] = {"%s|%s|%d|%d" % (rname, spname, part, nparts): h.hexdigest()}
+    if detail:
+        res["rows"] = rows
+    return res
 
 
 # ---------------------------------------------------------------- tasks (worker side)
@@ -245,8 +288,36 @@ def plan(ctx):
             for sh in A.shard_prefixes(ALPHAS[alpha], k, depth):
                 tasks.append((M, "task_words", ("u", name, alpha, k, sh), "c", "w"))
     tasks.append((M, "task_argkinds", (), "c", "k"))
+    # URL level: the same routed calls on both backends, compared through per-shard digests (finish() resolves differences)
+    from vlib import routes
+    url_spaces = [("F1", 1), ("X2", 2)] + ([] if quick else [("K3", 4)])
+    for b in BACKENDS:
+        for rname in routes.NAMES:
+            for sp, n in url_spaces:
+                for part in range(n):
+                    tasks.append((M, "task_url_digest", (rname, sp, part, n, False), b, "u"))
     ctx.notes["bounds"] = {"quoter_configs": sorted(q), "unquoter_configs": sorted(u),
                            "quoter_word_spaces": [(a, k, len(ALPHAS[a])) for a, k, _ in spaces_q],
                            "unquoter_word_spaces": [(a, k, len(ALPHAS[a])) for a, k, _ in spaces_u],
                            "boundary": "output offsets -13..+1 around 8192*{1,2,3}; python quoter on the long string: %s" % (not quick)}
     return tasks
+
+
+def finish(ctx, merged, pools):
+    """Resolve URL-level digest differences between the two backends into individual violating cases."""
+    bad = [k for k, v in merged.digests.items() if len(v) == 2 and v.get("c") != v.get("py")]
+    ctx.extra_coverage["url_level"] = {"shards_compared": sum(1 for v in merged.digests.values() if len(v) == 2), "shards_differing": len(bad)}
+    from vlib.acc import Acc as _Acc
+    from vlib import known as _known
+    for key in sorted(bad)[:40]:
+        rname, sp, part, n = key.split("|")
+        args = (rname, sp, int(part), int(n), True)
+        out = pools.run([("checks.C05", "task_url_digest", args, "c", "dc"), ("checks.C05", "task_url_digest", args, "py", "dp")])
+        rows = {b: dict((w, o) for w, o in res["rows"]) for _, b, res in out}
+        acc = _Acc(ID, "c")
+        for w, oc in rows["c"].items():
+            op = rows["py"].get(w)
+            if list(oc) != list(op):
+                acc.viol("url", (rname, w, op), observed={"c": oc}, expected={"py": op},
+                         msg="%s(%r): compiled backend gives %r, pure-Python backend %r" % (rname, w, oc, op))
+        merged.add("url-diff", "c", acc.result())
